@@ -24,6 +24,9 @@ class GaveUp(Exception):
     pass
 
 
+ANSWERED = {}     # (coef, parity, settings) -> (reported err, reported iter, errors recorded) of requests answered so far
+
+
 def one(ctx, S, coef, parity, crit, maxiter, force_form=None, use_result=None):
     """one solver call, judged; afterwards the caller USES what it was given (`use_result`): a returned protocol is the
     caller's object - it may be updated, its arrays edited in place.  A library that kept a reference to what it handed
@@ -108,6 +111,15 @@ def _one(ctx, S, coef, parity, crit, maxiter, force_form, keep):
         return
     ccrit = 1e-12 if crit is None else crit
     cmax = 1e5 if maxiter is None else maxiter
+    # a call that evaluated no Jacobian at all answered from memory: that is consistent with the property exactly when an
+    # identical request was answered earlier in this process with the same report - the break condition is then judged on
+    # the errors recorded in THAT run (a memoising solver is a harmless rewrite; its report must still be the true one)
+    key_ = (tuple(coef), parity, repr(crit), repr(maxiter))
+    if not errs and key_ in ANSWERED and ANSWERED[key_][:2] == (float(err), int(it)):
+        ctx.count("answered-without-iterating:same-report-as-earlier-identical-request")
+        errs = list(ANSWERED[key_][2])
+    elif errs:
+        ANSWERED[key_] = (float(err), int(it), list(errs))
     replay.update({"reported_err": float(err), "reported_iter": int(it), "errors_seen": errs})
     # control flow against the model
     mo = d.ask("newton.exit %s %s %s" % (rs(F(ccrit)), rs(F(cmax)), rl(F(e) for e in errs)))
